@@ -564,7 +564,7 @@ func (h *Host) registerHandler(hs HandlerSpec) {
 			inv.Sched.Immediate = true
 			inv.released = true
 			ch := make(chan error, 1)
-			ch <- schedErrN(inv.Sched, inv.Index)
+			complete(ch, schedErrN(inv.Sched, inv.Index), inv.Sched.Close)
 			return ch
 		})
 	case "raw_buffered":
@@ -573,7 +573,7 @@ func (h *Host) registerHandler(hs HandlerSpec) {
 			inv.ch = make(chan error, 1)
 			if inv.Sched.Immediate {
 				inv.released = true
-				inv.ch <- schedErrN(inv.Sched, inv.Index)
+				complete(inv.ch, schedErrN(inv.Sched, inv.Index), inv.Sched.Close)
 			}
 			return inv.ch
 		})
@@ -596,6 +596,10 @@ func (h *Host) registerHandler(hs HandlerSpec) {
 				select {
 				case res = <-inv.gate:
 				case <-done:
+					return
+				}
+				if res == nil && inv.Sched.Close {
+					close(out)
 					return
 				}
 				select {
@@ -683,7 +687,7 @@ func (h *Host) registerHandler(hs HandlerSpec) {
 				inv.ch = make(chan error, 1)
 				if inv.Sched.Immediate {
 					inv.released = true
-					inv.ch <- schedErrN(inv.Sched, inv.Index)
+					complete(inv.ch, schedErrN(inv.Sched, inv.Index), inv.Sched.Close)
 				}
 				if hs.Shape == "conv_rochan" {
 					var ro <-chan error = inv.ch
@@ -724,11 +728,24 @@ func (h *Host) Release(i int, failed bool) bool {
 	}
 	switch {
 	case inv.ch != nil:
-		inv.ch <- res
+		complete(inv.ch, res, inv.Sched.Close)
 	case inv.gate != nil:
 		inv.gate <- res
 	}
 	return true
+}
+
+// complete reports a handler's result on its channel: by a send, or - a common Go idiom for "done" -
+// by closing the channel without sending when there is no error (after sending when there is one).
+func complete(ch chan error, res error, closing bool) {
+	if closing && res == nil {
+		close(ch)
+		return
+	}
+	ch <- res
+	if closing {
+		close(ch)
+	}
 }
 
 // releaseAuto completes the invocations that need no host decision; called by the executors after the
